@@ -143,4 +143,38 @@ example : (1.0:ℝ) ≤ 1 * (2:ℝ) ^ ((1:ℝ) / 6) := by
   have : (1:ℝ) ≤ (2:ℝ) ^ ((1:ℝ) / 6) := Real.one_le_rpow (by norm_num) (by norm_num)
   linarith
 
+/-! ## the unit of length is a convention: every length (distance, contact distance, range, cut-off) multiplied by `u > 0` -/
+
+theorem hardSphere_length_unit (u : ℝ) (hu : 0 < u) (σ high r : ℝ) : hardSphere (u * σ) high (u * r) = hardSphere σ high r := by
+  unfold hardSphere; simp only [mul_lt_mul_iff_right₀ hu]
+
+theorem exponential_length_unit (u : ℝ) (hu : 0 < u) (ε a σ high r : ℝ) :
+    exponentialPot ε (u * a) (u * σ) high (u * r) = exponentialPot ε a σ high r := by
+  unfold exponentialPot; simp only [mul_lt_mul_iff_right₀ hu, Transc_exp]
+  have : -(u * r - u * σ) / (u * a) = -(r - σ) / a := by
+    rw [← mul_sub, ← mul_neg, mul_div_mul_left _ _ hu.ne']
+  rw [this]
+
+theorem ljCore_length_unit (u : ℝ) (hu : 0 < u) (ε σ r : ℝ) : ljCore ε (u * σ) (u * r) = ljCore ε σ r := by
+  unfold ljCore; rw [mul_div_mul_left _ _ hu.ne']
+
+theorem lennardJones_length_unit (u : ℝ) (hu : 0 < u) (ε σ : ℝ) (rcut : Option ℝ) (shift : Bool) (r : ℝ) :
+    lennardJones ε (u * σ) (rcut.map (u * ·)) shift (u * r) = lennardJones ε σ rcut shift r := by
+  unfold lennardJones
+  cases rcut with
+  | none => simp only [Option.map_none]; exact ljCore_length_unit u hu ε σ r
+  | some rc =>
+    simp only [Option.map_some, mul_lt_mul_iff_right₀ hu, ljCore_length_unit u hu]
+
+theorem hcLennardJones_length_unit (u : ℝ) (hu : 0 < u) (ε σ high r : ℝ) :
+    hcLennardJones ε (u * σ) high (u * r) = hcLennardJones ε σ high r := by
+  unfold hcLennardJones; simp only [mul_lt_mul_iff_right₀ hu, mul_div_mul_left _ _ hu.ne']
+
+/-- WCA: the cut-off `2^{1/6} σ` scales with `σ`, so nothing else has to be told -/
+theorem wca_length_unit (u : ℝ) (hu : 0 < u) (ε σ r : ℝ) : wca ε (u * σ) (u * r) = wca ε σ r := by
+  unfold wca
+  have := lennardJones_length_unit u hu ε σ (some (σ * Transc.root6two)) true r
+  simp only [Option.map_some] at this
+  rw [← this, mul_assoc]
+
 end C10
